@@ -19,6 +19,9 @@
 #include <shark/Models/Kernels/SubrangeKernel.h>
 #include <shark/Models/Kernels/DiscreteKernel.h>
 #include <shark/Models/Kernels/KernelHelpers.h>
+#include <shark/Models/Kernels/ModelKernel.h>
+#include <shark/Models/Kernels/PointSetKernel.h>
+#include <shark/Models/LinearModel.h>
 #include <shark/Data/Dataset.h>
 #include <boost/shared_ptr.hpp>
 #include <cstring>
@@ -116,11 +119,36 @@ template<> struct MakeNorm<CompressedRealVector>{
 	static AbstractKernelFunction<CompressedRealVector>* make(AbstractKernelFunction<CompressedRealVector>*){ return 0; }
 };
 
+// ModelKernel over a LinearModel (x -> A x + b) and the real SubrangeKernel class: dense inputs only
+template<class I> struct MakeModel{
+	static AbstractKernelFunction<I>* make(RealMatrix const&, RealVector const&, AbstractKernelFunction<I>*, std::vector<boost::shared_ptr<void> >&){ return 0; }
+};
+template<> struct MakeModel<RealVector>{
+	static AbstractKernelFunction<RealVector>* make(RealMatrix const& A, RealVector const& b, AbstractKernelFunction<RealVector>* base,
+			std::vector<boost::shared_ptr<void> >& keepAlive){
+		boost::shared_ptr<LinearModel<RealVector> > m(new LinearModel<RealVector>(A, b));
+		keepAlive.push_back(m);
+		return new ModelKernel<RealVector>(base, m.get());
+	}
+};
+template<class I> struct MakeSubk{
+	static AbstractKernelFunction<I>* make(std::vector<AbstractKernelFunction<I>*> const&, std::vector<std::pair<std::size_t,std::size_t> > const&, RealVector const&){ return 0; }
+};
+template<> struct MakeSubk<RealVector>{
+	static AbstractKernelFunction<RealVector>* make(std::vector<AbstractKernelFunction<RealVector>*> const& ks,
+			std::vector<std::pair<std::size_t,std::size_t> > const& ranges, RealVector const& ps){
+		SubrangeKernel<RealVector>* k = new SubrangeKernel<RealVector>(ks, ranges);
+		k->setParameterVector(ps);
+		return k;
+	}
+};
+
 // kernel-expression parser (same grammar as Driver/C05.lean)
 template<class I>
 struct Builder{
 	typedef AbstractKernelFunction<I> K;
 	std::vector<boost::shared_ptr<K> > pool;
+	std::vector<boost::shared_ptr<void> > keepAlive;   // models wrapped by ModelKernel
 	bool hasNorm;       // contains a NormalizedKernel: rounding differs between the evaluation paths
 	bool inexact;       // contains exp/sqrt: values are not exact
 	std::string paramOracle;   // parameter bookkeeping of composed kernels (ProductKernel::m_numberOfParameters)
@@ -202,6 +230,34 @@ struct Builder{
 				paramOracle = os.str();
 			}
 			return pk;
+		}
+		if(op == "model"){
+			std::size_t r, c;
+			if(p + 2 > t.size() || !parseNat(t[p], r) || !parseNat(t[p+1], c)) return 0;
+			p += 2; if(p + r*c + r > t.size()) return 0;
+			RealMatrix A(r,c); RealVector bb(r);
+			for(std::size_t i = 0; i != r*c; ++i){ if(!parseVal(t[p+i], v)) return 0; A(i/c, i%c) = v; }
+			p += r*c;
+			for(std::size_t i = 0; i != r; ++i){ if(!parseVal(t[p+i], v)) return 0; bb(i) = v; }
+			p += r;
+			K* base = parse(t, p); if(!base) return 0;
+			K* k = MakeModel<I>::make(A, bb, base, keepAlive);
+			return k ? keep(k) : 0;
+		}
+		if(op == "subk"){
+			if(p + 1 > t.size() || !parseNat(t[p], n) || n == 0) return 0;
+			p += 1;
+			RealVector ps(n-1);
+			for(std::size_t i = 0; i + 1 < n; ++i){ if(p >= t.size() || !parseVal(t[p], v)) return 0; ps(i) = v; ++p; }
+			std::vector<K*> ks(n); std::vector<std::pair<std::size_t,std::size_t> > ranges(n);
+			for(std::size_t i = 0; i != n; ++i){
+				if(p + 2 > t.size() || !parseNat(t[p], a) || !parseNat(t[p+1], b)) return 0;
+				p += 2; ranges[i] = std::make_pair(a, b);
+				ks[i] = parse(t, p); if(!ks[i]) return 0;
+			}
+			inexact = true;
+			K* k = MakeSubk<I>::make(ks, ranges, ps);
+			return k ? keep(k) : 0;
 		}
 		if(op == "sub"){
 			if(p + 2 > t.size() || !parseNat(t[p], a) || !parseNat(t[p+1], b)) return 0;
@@ -461,11 +517,38 @@ struct Session{
 	}
 };
 
+
+// PointSetKernel<RealVector>: inputs are point sets (RealMatrix); dense only
+template<class I> struct PointSets{
+	static bool supported(){ return false; }
+	static bool make(AbstractKernelFunction<I>*, std::vector<I> const&, std::vector<std::size_t> const&, Session<RealMatrix>&,
+			boost::shared_ptr<AbstractKernelFunction<RealMatrix> >&){ return false; }
+};
+template<> struct PointSets<RealVector>{
+	static bool supported(){ return true; }
+	static bool make(AbstractKernelFunction<RealVector>* base, std::vector<RealVector> const& pts, std::vector<std::size_t> const& sizes,
+			Session<RealMatrix>& ps, boost::shared_ptr<AbstractKernelFunction<RealMatrix> >& holder){
+		std::size_t total = 0; for(std::size_t s: sizes){ if(s == 0) return false; total += s; }
+		if(total > pts.size() || !base) return false;
+		holder.reset(new PointSetKernel<RealVector>(base));
+		ps.k = holder.get(); ps.pts.clear();
+		std::size_t pos = 0;
+		for(std::size_t s: sizes){
+			RealMatrix X(s, pts[pos].size());
+			for(std::size_t i = 0; i != s; ++i) noalias(row(X,i)) = pts[pos+i];
+			ps.pts.push_back(X); pos += s;
+		}
+		return true;
+	}
+};
+
 template<class I>
 int run(){
 	Builder<I>* builder = new Builder<I>();
 	Session<I> vs;                      // vector-input kernels
 	Session<std::size_t> ds;            // DiscreteKernel
+	Session<RealMatrix> ps;             // PointSetKernel over the current vector kernel
+	boost::shared_ptr<AbstractKernelFunction<RealMatrix> > psHolder;
 	boost::shared_ptr<DiscreteKernel> disc;
 	bool discrete = false;
 	std::string line;
@@ -488,6 +571,7 @@ int run(){
 				}
 			}
 			else if(t[0] == "kern"){
+				ps.k = 0; psHolder.reset();
 				delete builder; builder = new Builder<I>();
 				std::size_t p = 1;
 				vs.k = builder->parse(t, p);
@@ -513,6 +597,17 @@ int run(){
 					}
 					std::ostringstream os; os << "ok " << n << " " << d; out = ok ? os.str() : "bad-op";
 				}
+			}
+			else if(t[0] == "psets"){
+				std::vector<std::size_t> a;
+				if(!PointSets<I>::supported()) out = "unsupported";
+				else if(!vh::allNat(t, 1, a) || discrete || !PointSets<I>::make(vs.k, vs.pts, a, ps, psHolder)) out = "bad-op";
+				else{ ps.tolUlp = vs.inexact ? 4 : 0; ps.inexact = vs.inexact; /* sums of inexact values: order-dependent rounding */ std::ostringstream os; os << "ok " << a.size(); out = os.str(); }
+			}
+			else if(t[0] == "ps"){
+				std::vector<std::string> rest(t.begin()+1, t.end());
+				if(!PointSets<I>::supported()) out = "unsupported";
+				else if(rest.empty() || !ps.k || !ps.dispatch(rest, out)) out = "bad-op";
 			}
 			else if(t[0] == "ipts"){
 				std::vector<std::size_t> a;
